@@ -390,6 +390,11 @@ class GlueSerializer(object):
                                  " %r of type %s" % (obj, type(obj)))
 
     def _disambiguate(self, name):
+        # Names starting with st__ are interpreted as string literals when
+        # loading, so we make sure objects never get such a name
+        if name.startswith('st__'):
+            name = '_' + name
+
         if name not in self._objs:
             return name
 
